@@ -209,6 +209,7 @@ func fqDescribeItems(v Val) string {
 // ---- kinds -----------------------------------------------------------------------
 
 var kFastqWrite = register(&Kind{Name: "fastq_write",
+	Project: func(out Val) Val { return L(joinChunks(out.At(0)), out.At(1)) },
 	Impl: func(in Val) Val {
 		f := &fastq.Fastq{Name: in.At(0).Bytes(), Sequence: in.At(1).Bytes(), Quals: in.At(2).Bytes()}
 		orig := fqRecVal(f.Name, f.Sequence, f.Quals).String()
@@ -244,9 +245,6 @@ var kFastqWrite = register(&Kind{Name: "fastq_write",
 		written := bytes.Join(out.At(0).BytesList(), nil)
 		if !bytes.Equal(written, want) {
 			return "Write does not produce '@'name LF seq LF '+' LF quals LF"
-		}
-		if len(out.At(0).List()) != 1 {
-			return fmt.Sprintf("Write made %d calls to the writer, want 1", len(out.At(0).List()))
 		}
 		if !isOk(out.At(1)) {
 			return "MarshalText did not succeed: " + clip(out.At(1).String())
